@@ -108,6 +108,9 @@ fn feed(r: &mut DeltaReceiver, w: &mut Warnings, m: &Msg) -> Got {
     }
 }
 
+/// Schedule entry that stands for a call of `DeltaReceiver::reset`.
+const RESET: usize = usize::MAX;
+
 /// Runs a schedule against the real receiver and the model. `schedule` refers
 /// to (transfer index, message index).
 fn run_schedule(ctx: &mut Ctx, transfers: &[Transfer], msgs: &[Vec<Msg>], schedule: &[(usize, usize)], kind: &str) {
@@ -116,10 +119,22 @@ fn run_schedule(ctx: &mut Ctx, transfers: &[Transfer], msgs: &[Vec<Msg>], schedu
     let mut seen: BTreeSet<i32> = BTreeSet::new();
     let mut done = false;
     let case = || json!({"kind": kind, "transfers": transfers.iter().map(|t| json!({"tick": t.tick, "base": t.base, "crc": t.crc, "len": t.data.len(), "force_multi": t.force_multi})).collect::<Vec<_>>(),
-        "schedule": schedule.iter().map(|(ti, mi)| msgs[*ti][*mi].to_json()).collect::<Vec<_>>()});
+        "schedule": schedule.iter().map(|(ti, mi)| if *ti == RESET { json!("reset") } else { msgs[*ti][*mi].to_json() }).collect::<Vec<_>>()});
     let nparts_class = |n: usize| if n <= 1 { "1-part" } else if n <= 5 { "2..5-parts" } else { ">5-parts" };
     let mut somes = vec![0u32; transfers.len()];
     for (step, &(ti, mi)) in schedule.iter().enumerate() {
+        if ti == RESET {
+            // DeltaReceiver::reset: afterwards the receiver behaves like a new one
+            if let Err(p) = catch(|| r.reset()) {
+                ctx.panic_violation("DeltaReceiver::reset", kind, &p, case());
+                return;
+            }
+            ctx.count("resets", 1);
+            newest = None;
+            seen.clear();
+            done = false;
+            continue;
+        }
         let m = &msgs[ti][mi];
         let t = &transfers[ti];
         let mut w = Warnings::new();
@@ -212,17 +227,24 @@ fn gen_transfer(rng: &mut Rng, tick: i32, maxparts: usize) -> Transfer {
 }
 
 fn next_tick(rng: &mut Rng, t: i32) -> Option<i32> {
+    if t < i32::MAX && rng.chance(1, 12) {
+        // the last tick there is
+        return Some(if rng.bool() || t == i32::MAX - 1 { i32::MAX } else { i32::MAX - 1 });
+    }
     t.checked_add(*rng.pick(&[1, 1, 2, 3, 50, 100_000]))
 }
 
 fn start_tick(rng: &mut Rng) -> i32 {
-    match rng.below(7) {
+    match rng.below(10) {
         0 => 0,
         1 => 1,
         2 => 2,
         3 => i32::MIN,
         4 => i32::MAX - 300_000,
         5 => -1,
+        6 => i32::MAX,
+        7 => i32::MAX - 1,
+        8 => i32::MIN + 1,
         _ => rng.range(i32::MIN as i64, i32::MAX as i64 - 1_000_000) as i32,
     }
 }
@@ -264,7 +286,7 @@ fn permutations(n: usize) -> Vec<Vec<usize>> {
 
 fn main() {
     let mut ctx = Ctx::from_args("C12");
-    ctx.rule = "a case = one schedule of snapshot messages fed to a fresh DeltaReceiver; exhaustive: for transfers of 1..4 parts (5 in thorough) every permutation of the parts, plain and with every single duplication at every position; sampled: PRNG permutations with PRNG duplications for up to 32 parts; interleaved: a completed older transfer, an abandoned older transfer and a newer transfer mixed into the schedule; data lengths 0, 1, 899..901, multiples of 900, up to 32 x 900; tick and base tick from {0,1,2,MIN,MAX,tick-1,tick,PRNG}; non-trivial = at least two messages; distinct = hash of the schedule".into();
+    ctx.rule = "a case = one schedule of snapshot messages fed to a fresh DeltaReceiver; exhaustive: for transfers of 1..4 parts (5 in thorough) every permutation of the parts, plain and with every single duplication at every position; sampled: PRNG permutations with PRNG duplications for up to 32 parts; interleaved: a completed older transfer, an abandoned older transfer and a newer transfer mixed into the schedule; chain: 4-24 transfers through one long-lived receiver, a third of the multi-part ones abandoned part-way, stale and duplicated messages mixed in, DeltaReceiver::reset between transfers (after which any tick, also an older one, starts a transfer); data lengths 0, 1, 899..901, multiples of 900, up to 32 x 900; tick from {0,1,2,-1,MIN,MIN+1,MAX-1,MAX,PRNG}, base tick from {0,1,2,MIN,MAX,tick-1,tick,PRNG}; non-trivial = at least two messages; distinct = hash of the schedule".into();
     ctx.assumptions = vec![
         "model of the statement: a call hands out data iff it delivers the last missing part of the transfer for the newest tick seen; messages for ticks older than the newest seen never hand out data; duplicates never hand out data".into(),
         "the library splitter is used only where tick - base is representable (it subtracts without wrapping); otherwise messages carry the wrapped relative value the receiver documents".into(),
@@ -386,6 +408,63 @@ fn main() {
         if ctx.want_sample() && s.len() <= 14 {
             ctx.sample(json!({"phase": "interleaved", "ticks": [t0, tx, t1, t2], "schedule": s.iter().map(|(ti, mi)| msgs[*ti][*mi].to_json()).collect::<Vec<_>>()}));
         }
+    });
+    // ---- chains: one long-lived receiver, many transfers, abandoned transfers, resets
+    let n = ctx.volume(4_000, 200_000, 10, 50);
+    ctx.run_cases("chain", n, |ctx, _i, rng| {
+        let ntransfers = rng.range(4, 24) as usize;
+        let mut transfers: Vec<Transfer> = Vec::new();
+        let mut msgs: Vec<Vec<Msg>> = Vec::new();
+        let mut s: Vec<(usize, usize)> = Vec::new();
+        let mut tick = start_tick(rng);
+        // first transfer index of the current epoch (since the last reset)
+        let mut epoch_start = 0usize;
+        let mut resets = 0u32;
+        for k in 0..ntransfers {
+            if k > 0 {
+                if rng.chance(1, 6) {
+                    s.push((RESET, 0));
+                    resets += 1;
+                    epoch_start = k;
+                    // after a reset any tick may follow, also an older one
+                    tick = if rng.bool() { start_tick(rng) } else { tick.wrapping_sub(rng.range(0, 1000) as i32) };
+                } else {
+                    tick = match next_tick(rng, tick) {
+                        Some(t) => t,
+                        None => break,
+                    };
+                }
+            }
+            let maxp = *rng.pick(&[1usize, 1, 2, 3, 6, 32]);
+            let t = gen_transfer(rng, tick, maxp);
+            let m = split(ctx, rng, &t);
+            transfers.push(t);
+            msgs.push(m);
+            let np = msgs[k].len();
+            let mut order: Vec<(usize, usize)> = (0..np).map(|p| (k, p)).collect();
+            rng.shuffle(&mut order);
+            // a third of the multi-part transfers is abandoned part-way
+            if np >= 2 && rng.chance(1, 3) {
+                let keep = rng.range(1, np as i64 - 1) as usize;
+                order.truncate(keep);
+                ctx.count("chain_abandoned_transfers", 1);
+            }
+            for x in order {
+                if k > epoch_start && rng.chance(1, 5) {
+                    // stale message of an earlier transfer of this epoch
+                    let o = rng.range(epoch_start as i64, k as i64 - 1) as usize;
+                    s.push((o, rng.usize_below(msgs[o].len())));
+                }
+                s.push(x);
+                if rng.chance(1, 6) {
+                    s.push(x);
+                }
+            }
+        }
+        ctx.count("chain_transfers", transfers.len() as u64);
+        ctx.max("max_chain_resets", resets as u64);
+        run_schedule(ctx, &transfers, &msgs, &s, "chain");
+        ctx.case(if s.len() >= 2 { Some(verif_harness::fnv1a(format!("{:?}|{:?}", s, transfers.iter().map(|t| (t.tick, t.base, t.data.len())).collect::<Vec<_>>()).as_bytes())) } else { None });
     });
     ctx.disarm();
     ctx.finish();
